@@ -73,7 +73,8 @@
 (*    cpu/mem/ports: the sums / the expanded port ranges of                 *)
 (*    TaskInfo.Resources (executor share included as requested); optional   *)
 (*    per task: "dynamic":[9000] (bound TCP endpoints of the bind map) and  *)
-(*    "control":30000 (the control port handed to the task).                *)
+(*    "control":30000 (the control port handed to the task; the whole-core  *)
+(*    simulation reads it from TaskInfo.Data for controllable tasks).       *)
 (*  {"ev":"Decline","scn":n,"offers":["o2"]}                                *)
 (*  {"ev":"Verdict","scn":n,"deployed":["d1"],"undeployed":[],              *)
 (*       "undeployable":[]}                                                 *)
@@ -230,16 +231,23 @@ P1Pattern(m) ==
   IN IF B = {} THEN "-"
      ELSE IF ~Sat(o.attrs, DescCts(d)) THEN SatPattern(o.attrs, DescCts(d), TRUE)
      ELSE "resources do not cover the template"
-P2Pattern(m) ==
-  LET K == {ij \in Known(m.offers, m.descs, m.accepts) : ~P2TaskOK(ById(m.descs, TaskAt(m.accepts, ij).desc), TaskAt(m.accepts, ij))}
-      ij == CHOOSE ij \in K : TRUE
-      t == TaskAt(m.accepts, ij)
-      d == ById(m.descs, t.desc)
-      static == PortSet(DescStatic(d))
-  IN IF K = {} THEN "-"
-     ELSE IF ~(static \subseteq TaskPorts(t)) THEN "static range not requested as written"
-     ELSE IF Cardinality(TaskPorts(t) \ static) < d.tcp_inbound + DescCtl(d) THEN "a dynamic or control port coincides with a static port"
+\* class of a task whose ports are not what P2 asks for.  A shortage of ports (fewer requested than used) can come from a
+\* dynamic/control port falling on a static port only if the template has static ports in the dynamic range
+P2Short == "a dynamic or control port coincides with a static port"
+P2Clash == "dynamic and control ports of the task are not pairwise distinct (no static port involved)"
+P2NotAsWritten == "static range not requested as written"
+P2Class(d, t) ==
+  LET static == PortSet(DescStatic(d))
+      extra == TaskPorts(t) \ static
+      short == \/ Cardinality(extra) < d.tcp_inbound + DescCtl(d)
+               \/ (HasF(t, "control") /\ d.controllable /\ t.control \notin static /\ Cardinality(extra \ {t.control}) < d.tcp_inbound)
+  IN IF ~(static \subseteq TaskPorts(t)) THEN P2NotAsWritten
+     ELSE IF short THEN (IF \E p \in static : p >= DataPortMin THEN P2Short ELSE P2Clash)
      ELSE "other"
+P2BadOf(m, pat) ==
+  {TaskAt(m.accepts, ij).desc : ij \in
+     {ij \in Known(m.offers, m.descs, m.accepts) :
+        LET t == TaskAt(m.accepts, ij) d == ById(m.descs, t.desc) IN ~P2TaskOK(d, t) /\ P2Class(d, t) = pat}}
 KindsOf(B) == {x[1] : x \in B}
 P4Pattern(m) ==
   LET Kn == KindsOf(P4Bad(m.offers, m.descs, m.accepts)) IN
@@ -248,7 +256,11 @@ P4Pattern(m) ==
 CloseViol(m, withP5) ==
     Soft("P0_KnownIds", P0Bad(m.offers, m.descs, m.accepts) = {}, <<"-", P0Bad(m.offers, m.descs, m.accepts)>>)
   + Soft("P1_ConstraintsAndResources", P1Bad(m.offers, m.descs, m.accepts) = {}, <<P1Pattern(m), P1Bad(m.offers, m.descs, m.accepts)>>)
-  + Soft("P2_TaskPorts", P2Bad(m.offers, m.descs, m.accepts) = {}, <<P2Pattern(m), P2Bad(m.offers, m.descs, m.accepts)>>)
+  \* one record per class of failure, so that a known class never hides another one in the same round
+  + Soft("P2_TaskPorts", P2BadOf(m, P2NotAsWritten) = {}, <<P2NotAsWritten, P2BadOf(m, P2NotAsWritten)>>)
+  + Soft("P2_TaskPorts", P2BadOf(m, P2Short) = {}, <<P2Short, P2BadOf(m, P2Short)>>)
+  + Soft("P2_TaskPorts", P2BadOf(m, P2Clash) = {}, <<P2Clash, P2BadOf(m, P2Clash)>>)
+  + Soft("P2_TaskPorts", P2BadOf(m, "other") = {}, <<"other", P2BadOf(m, "other")>>)
   + Soft("P3_PortsOfferedAndDistinct", P3Bad(m.offers, m.descs, m.accepts) = {},
          <<JoinR(SetToSortedStrings(KindsOf(P3Bad(m.offers, m.descs, m.accepts))), "+"), P3Bad(m.offers, m.descs, m.accepts)>>)
   + Soft("P4_OfferNotExceeded", P4Bad(m.offers, m.descs, m.accepts) = {}, <<P4Pattern(m), P4Bad(m.offers, m.descs, m.accepts)>>)
